@@ -146,7 +146,7 @@ def gen_vector(rnd, rt, workdir, mk_wenc):
     if icls == "dir":
         dont.append("input is a directory")
     # ---- -o
-    ocls = pick(["valid"] * 6 + ["absent"] * 3 + ["baddir"])
+    ocls = pick(["valid"] * 6 + ["absent"] * 3 + ["baddir", "devfull", "devnull", "devzero"])
     if ocls == "valid":
         v.opts.append(("-o", "out.bin"))
         v.outfile = "out.bin"
@@ -154,6 +154,16 @@ def gen_vector(rnd, rt, workdir, mk_wenc):
         v.opts.append(("-o", "no_such_dir/out.bin"))
         v.outfile = "no_such_dir/out.bin"
         fails.append("output unopenable")  # -o is opened while parsing, whatever the mode
+    elif ocls in ("devfull", "devnull", "devzero"):
+        dev = {"devfull": "/dev/full", "devnull": "/dev/null", "devzero": "/dev/zero"}[ocls]
+        v.opts.append(("-o", dev))
+        v.outfile = dev
+        if op == "e":
+            fails.append("output is not a regular file")   # the tag pass must read the output back
+        elif op == "d" and ocls == "devfull" and len(plain) > 0:
+            fails.append("output device rejects writes (ENOSPC)")
+        else:
+            dont.append("device file as output")
     else:
         if op == "d":
             fails.append("-d without -o")
